@@ -20,9 +20,23 @@ var (
 	tokTokType = reflect.TypeOf(token.Token(0))
 )
 
+// tokTextLen: the length of the text a token.Token field contributes in front of the node's
+// literal text: the spelling of operators and keywords, the prefix of c"..." / py"..." literal
+// kinds, nothing for the other literal classes.
+func tokTextLen(t token.Token) int {
+	switch {
+	case t == token.CSTRING:
+		return 1
+	case t == token.PYSTRING:
+		return 2
+	case t.IsLiteral():
+		return 0
+	}
+	return len(t.String())
+}
+
 // Vals returns the non-node field values a Pos()/End() method can see, as the Lean model
-// takes them: token.Pos -> its value, string -> its length, bool -> 0/1, token.Token -> the
-// length of its spelling; plus the pseudo-flag Implicit of an Ident.
+// takes them: token.Pos -> its value, string -> its length, bool -> 0/1, token.Token -> tokTextLen; plus the pseudo-flag Implicit of an Ident.
 func Vals(n ast.Node) [][2]string {
 	var res [][2]string
 	v := reflect.ValueOf(n)
@@ -41,7 +55,7 @@ func Vals(n ast.Node) [][2]string {
 		case f.Type == tokPosType:
 			res = append(res, [2]string{f.Name, strconv.FormatInt(fv.Int(), 10)})
 		case f.Type == tokTokType:
-			res = append(res, [2]string{f.Name, strconv.Itoa(len(token.Token(fv.Int()).String()))})
+			res = append(res, [2]string{f.Name, strconv.Itoa(tokTextLen(token.Token(fv.Int())))})
 		case f.Type.Kind() == reflect.String:
 			res = append(res, [2]string{f.Name, strconv.Itoa(fv.Len())})
 		case f.Type.Kind() == reflect.Bool:
@@ -143,7 +157,7 @@ func intField(n ast.Node, name string) (int, bool) {
 	case f.Type() == tokPosType:
 		return int(f.Int()), true
 	case f.Type() == tokTokType:
-		return len(token.Token(f.Int()).String()), true
+		return tokTextLen(token.Token(f.Int())), true
 	case f.Kind() == reflect.String:
 		return f.Len(), true
 	case f.Kind() == reflect.Bool:
